@@ -21,7 +21,9 @@ class GreensFunctionCache:
 
     Cache key is a SHA-256 hash of the solver inputs that determine the
     Green's function: vertical grid, profiles, domain, modes, measurement
-    point, halo, and precision.
+    point, halo (as resolved by the solver, never ``None``), precision,
+    output levels, shape of the surface-flux array, the analytic flag and
+    the surface background concentration.
 
     Parameters
     ----------
@@ -33,7 +35,20 @@ class GreensFunctionCache:
         self.cache_dir = Path(cache_dir)
         self.cache_dir.mkdir(parents=True, exist_ok=True)
 
-    def _compute_key(self, z, profiles, domain, modes, meas_pt, halo, precision):
+    def _compute_key(
+        self,
+        z,
+        profiles,
+        domain,
+        modes,
+        meas_pt,
+        halo,
+        precision,
+        levels=None,
+        shape=None,
+        analytic=False,
+        srf_bg_conc=0.0,
+    ):
         """Compute SHA-256 hash from solver inputs."""
         h = hashlib.sha256()
         h.update(np.asarray(z).tobytes())
@@ -44,17 +59,30 @@ class GreensFunctionCache:
         h.update(np.asarray(meas_pt).tobytes())
         h.update(str(halo).encode())
         h.update(precision.encode())
+        # inputs that change the output but not the arrays hashed above
+        extra = (
+            None if levels is None else np.atleast_1d(levels).tolist(),
+            None if shape is None else tuple(int(n) for n in shape),
+            bool(analytic),
+            float(srf_bg_conc),
+        )
+        h.update(repr(extra).encode())
         return h.hexdigest()
 
-    def get(self, z, profiles, domain, modes, meas_pt, halo, precision):
+    def get(self, z, profiles, domain, modes, meas_pt, halo, precision, **extra):
         """Look up cached result.
+
+        ``extra`` takes the keyword arguments ``levels``, ``shape``,
+        ``analytic`` and ``srf_bg_conc`` of :meth:`_compute_key`.
 
         Returns
         -------
         tuple or None
             (grid, conc, flx) if cached, None on miss.
         """
-        key = self._compute_key(z, profiles, domain, modes, meas_pt, halo, precision)
+        key = self._compute_key(
+            z, profiles, domain, modes, meas_pt, halo, precision, **extra
+        )
         path = self.cache_dir / f"{key}.npz"
         if path.exists():
             logger.debug("Cache hit: %s", key[:12])
@@ -65,10 +93,23 @@ class GreensFunctionCache:
         return None
 
     def put(
-        self, z, profiles, domain, modes, meas_pt, halo, precision, grid, conc, flx
+        self,
+        z,
+        profiles,
+        domain,
+        modes,
+        meas_pt,
+        halo,
+        precision,
+        grid,
+        conc,
+        flx,
+        **extra,
     ):
-        """Store a result in the cache."""
-        key = self._compute_key(z, profiles, domain, modes, meas_pt, halo, precision)
+        """Store a result in the cache (``extra`` as in :meth:`get`)."""
+        key = self._compute_key(
+            z, profiles, domain, modes, meas_pt, halo, precision, **extra
+        )
         path = self.cache_dir / f"{key}.npz"
         X, Y, Z = grid
         np.savez(path, X=X, Y=Y, Z=Z, conc=conc, flx=flx)
